@@ -880,6 +880,10 @@ func genCase(r *hx.Rng) caseSpec {
 }
 
 // ---------- the deterministic first cases: witnesses of the known findings ----------
+// (cases 1, 5, 6, 7 and the completion of case 0 are witnesses of defects that have been
+// repaired in /repo — numeric part order and explicit listing limit in completeMultipartUpload,
+// doDeleteEmptyDirectories skipping non-directories, CopyObject checking the source status,
+// CopyObjectPart checking the upload — and now pass; case 0 still exhibits the ListParts order)
 
 func witnesses() []caseSpec {
 	put := func(k int, seed uint64, size int) *op { return &op{kind: "Put", key: k, seed: seed, size: size} }
@@ -948,7 +952,7 @@ func bigCase(r *hx.Rng) caseSpec {
 func main() {
 	out := hx.Flags("C28", 300)
 	out.Rule = "histories of S3 requests on one bucket through the real gateway router over a real in-process filer (leveldb2) with a loopback volume stand-in: " +
-		"first 10 deterministic witnesses of the known findings, then per case one of: multipart (1-2 uploads over prefix-free keys, part numbers from {1,2,9,10,999,1000,1001,9999,10000} with a small per-case pool so that overwrites and the 10000 mix happen, bodies 0..64 bytes, streaming-signed parts incl. a bad chunk signature, UploadPartCopy with ranges, ListParts, abort, requests after completion; dirListLimit in {100000,1000,1..3}, saveToFilerLimit in {0,8,32,100}), " +
+		"first 10 deterministic witnesses of the known findings and of the repaired defects, then per case one of: multipart (1-2 uploads over prefix-free keys, part numbers from {1,2,9,10,999,1000,1001,9999,10000} with a small per-case pool so that overwrites and the 10000 mix happen, bodies 0..64 bytes, streaming-signed parts incl. a bad chunk signature, UploadPartCopy with ranges, ListParts, abort, requests after completion; dirListLimit in {100000,1000,1..3}, saveToFilerLimit in {0,8,32,100}), " +
 		"objects (PUT / streaming PUT / copy / GET with closed, open, suffix and unsatisfiable ranges / DELETE / batch delete over prefix-free keys), namespace (the same over keys that are path prefixes of each other: a, a/b, a/b/c, d, d/e, ab), case 10 and every 400th case a multi-chunk upload (a part of 1 MiB + tail = two 1 MiB filer chunks between two small parts, ranges across the chunk and part boundaries). " +
 		"non-trivial = some GET returned a non-empty body; distinct = canonical configuration + op list"
 	w := newWorld()
